@@ -42,6 +42,14 @@ CLAIMED = {
             "Float32 patterns widened (stride 61 quick, all 2^32 thorough), doubles with 12 free leading/trailing mantissa bits x all exponents x signs (50 M), nearest doubles of a 4-digit (thorough 5-digit) decimal lattice x all exponents, powers of ten/two +-4 ulp, sparse subnormals, scaled integers, +-16 ulp around the 1e-6/1e21 format switches; output must equal encoding/json byte for byte, parse back to the same bits, and (1/64) have no shorter round-tripping decimal. Bounded-lattice claim: the 2^64 space is not enumerated.",
             "Trusted: Go's encoding/json + strconv. Not all 2^64 patterns.",
             "DESIGN.md 4.18"),
+    "C10": ("exhaustive enumeration of documents and edit-history states; real MarshalJSON vs. grammar model, reference tree and re-parse fixed point",
+            "Every document of the C02 space, every accepted input of the C08 line-sequence space (both string modes), strings with each byte 0x00..0x7f in four placements, and every state of the replace/delete history graph (depth 1, thorough 2) is marshalled from the root iterator, from a restricted iterator on every inner value (capped at 240 positions on very large documents), from Array/Elements and from ParsedJson.ForEach iterators. Output must be valid JSON, denote the same ordered document (numbers numerically equal) and be a byte-exact fixed point of parse+marshal. SetFloat(NaN/+-Inf) at every position: every covering marshal call errors with no bytes.",
+            "Trusted: grammar model and reference tree. Advance-positioned (unrestricted) iterators are not 'inner value' iterators (their scope is the rest of the container).",
+            "DESIGN.md 4.10"),
+    "C12": ("exhaustive enumeration of bounded document/key/path/filter space on the real lookup APIs vs. reference-tree lookups and exact range arithmetic",
+            "Every object of every tree with <= 4 (thorough 5) nodes over keys {a,b,ab,ba,''} (duplicates included): FindKey for 7 probe keys (two absent, one of equal length), FindPath and Iter.FindElement for all 399 paths of length <= 3 over the probes, ForEach with all 128 filter subsets and nil, Parse/Lookup/Map. Every array of <= 2 elements over an 80-literal numeric boundary lattice (2^53, 2^63, 2^64, -2^63 and neighbouring integers and doubles as int/uint/float spellings) plus non-numeric fillers through Int/Uint/Float/Interface and AsInteger/AsUint64/AsFloat/AsString/AsStringCvt, against exact math/big range arithmetic.",
+            "Floats in (-1,0) to uint are either-outcome. Filters only on objects with unique keys.",
+            "DESIGN.md 4.12"),
 }
 
 PENDING_REASON = "check not built yet in this round (planned, see DESIGN.md section 8); not claimed until its machinery exists"
